@@ -65,6 +65,7 @@ def check_case(seg, rect, as_tuples=False):
     # have coordinates of 1e-3, in nanometres of 1e9); no absolute floor
     scale = max(abs(v) for p in fseg + frect for v in p)
     tol2 = (REL_TOL * scale) ** 2
+    core.rejected(_lib().clip_segment, [[0, 0]], [[0, 0], [1, 1]])          # one endpoint only
     try:
         (accept, result), calls = clip_counted(conv([conv(seg[0]), conv(seg[1])]),
                                                conv([conv(rect[0]), conv(rect[1])]))
